@@ -66,6 +66,22 @@ type flusher interface {
 	Flush() error
 }
 
+// flushAfterWrite is an io.Writer that flushes after every write,
+// what has been received is delivered without waiting for more.
+type flushAfterWrite struct {
+	w io.Writer
+	f flusher
+}
+
+func (w flushAfterWrite) Write(p []byte) (n int, err error) {
+	n, err = w.w.Write(p)
+	if err != nil {
+		return
+	}
+	err = w.f.Flush()
+	return
+}
+
 // patternFlushWriter is an io.Writer that flushes when a pattern is detected.
 type patternFlushWriter struct {
 	w       io.Writer
